@@ -20,9 +20,9 @@ type c15Op struct {
 	L    int    `json:"l,omitempty"`
 	Name string `json:"name,omitempty"`
 	B    bool   `json:"b,omitempty"`
-	D    int64  `json:"d,omitempty"`  // clock delta in seconds
-	F    string `json:"f,omitempty"`  // fault kind: load-eio | mtime-err
-	At   int    `json:"at,omitempty"` // racewrite: after how many further loader-level calls "another process" rewrites the template
+	D    int64  `json:"d,omitempty"`   // clock delta in seconds
+	F    string `json:"f,omitempty"`   // fault kind: load-eio | mtime-err
+	At   int    `json:"at,omitempty"`  // racewrite: after how many further loader-level calls "another process" rewrites the template
 	Via  int    `json:"via,omitempty"` // register: 0 RegisterString, 1 ParseTemplate+RegisterTemplate, 2 RegisterCompiledTemplate, 3 LoadFromCompiledData; addloader: index into the loader kinds
 }
 
@@ -141,17 +141,17 @@ type c15File struct {
 }
 
 type c15Loader struct {
-	kind   string
-	ts     bool
-	files  map[string]c15File // model content (for chain: of the first inner)
-	inner  []map[string]c15File // chain: model content of the second, third, … inner loader
-	real   twig.Loader
-	arr    *twig.ArrayLoader
-	arrs   []*twig.ArrayLoader // chain: second, third, … inner loader
-	sim    *tsLoader
-	dir    string
-	fault  string
-	reads  func(name string) int
+	kind  string
+	ts    bool
+	files map[string]c15File   // model content (for chain: of the first inner)
+	inner []map[string]c15File // chain: model content of the second, third, … inner loader
+	real  twig.Loader
+	arr   *twig.ArrayLoader
+	arrs  []*twig.ArrayLoader // chain: second, third, … inner loader
+	sim   *tsLoader
+	dir   string
+	fault string
+	reads func(name string) int
 }
 
 // tsLoader: timestamp-aware in-memory loader with read counters and one-shot faults.
